@@ -387,6 +387,16 @@ func (m *natmap) Close() error {
 // and serializing an IPv6 address from the example range.
 var maxAddrLen int = len(socks.ParseAddr("[2001:db8::1]:12345"))
 
+// addrWithoutZone drops the IPv6 zone of a UDP address. A zoned address (e.g. a link-local
+// sender) does not parse as an IP literal, so it would be encoded as a domain name that is
+// longer than the space reserved for the address header.
+func addrWithoutZone(addr net.Addr) net.Addr {
+	if udpAddr, ok := addr.(*net.UDPAddr); ok && udpAddr.Zone != "" {
+		return &net.UDPAddr{IP: udpAddr.IP, Port: udpAddr.Port}
+	}
+	return addr
+}
+
 // copy from target to client until read timeout
 func timedCopy(clientAddr net.Addr, clientConn net.PacketConn, targetConn *natconn, l *slog.Logger) {
 	// pkt is used for in-place encryption of downstream UDP packets, with the layout
@@ -422,7 +432,11 @@ func timedCopy(clientAddr net.Addr, clientConn net.PacketConn, targetConn *natco
 			}
 
 			debugUDPAddr(l, "Got response.", clientAddr, slog.Any("target", raddr))
-			srcAddr := socks.ParseAddr(raddr.String())
+			srcAddr := socks.ParseAddr(addrWithoutZone(raddr).String())
+			if srcAddr == nil || len(srcAddr) > maxAddrLen {
+				// The header would not fit in the space reserved in front of the body.
+				return onet.NewConnectionError("ERR_PACK", "Failed to encode the source address", nil)
+			}
 			addrStart := bodyStart - len(srcAddr)
 			// `plainTextBuf` concatenates the SOCKS address and body:
 			// [padding?][salt][address][body][tag][unused]
